@@ -151,9 +151,9 @@ func gen(kind string) func(t *rapid.T) Case {
 			if rapid.IntRange(0, 7).Draw(t, "big-build") == 0 {
 				chunks = 9 // dozens to hundreds of elements
 			}
-			c.Build = refl.GenSteps(t, build, chunks, 14)
+			c.Build = refl.GenStepsFor(t, c.Cfg.Kind, build, chunks, 14)
 		}
-		c.Steps = refl.GenSteps(t, methods, 3, 12)
+		c.Steps = refl.GenStepsFor(t, c.Cfg.Kind, methods, 3, 12)
 		return c
 	}
 }
